@@ -50,9 +50,16 @@ def field_sweep_cases(rng, variant, spec, per_field):
         raws |= set(cc.interesting_raws(w))
         for s in cc.SENTINELS.get(name.rstrip('0123456789_').replace('ne_', '').replace('sw_', ''), []):
             raws.add(s & ((1 << w) - 1))
-        raws = sorted(raws)
-        if len(raws) > per_field and w > 8:
-            raws = raws[:per_field]
+        # sign boundary, extremes and sentinels first: a budget cut must never drop them
+        prio = [1 << (w - 1), (1 << (w - 1)) - 1, (1 << w) - 1, 0, 1, (1 << w) - 2, (1 << (w - 1)) + 1]
+        sent = [s & ((1 << w) - 1) for s in cc.SENTINELS.get(name.rstrip('0123456789_').replace('ne_', '').replace('sw_', ''), [])]
+        ordered = []
+        for r in prio + sent + sorted(raws):
+            if 0 <= r < (1 << w) and r not in ordered:
+                ordered.append(r)
+        raws = ordered
+        if len(raws) > per_field + len(prio) + len(sent) and w > 8:
+            raws = raws[:per_field + len(prio) + len(sent)]
         for raw in raws:
             yield ('field:' + k, cc.set_field(cc.make_payload(rng, variant), off, w, raw))
         for _ in range(2):
